@@ -882,6 +882,8 @@ class _Ctx:
             return self.formula(t.args[0], st)
         # truthiness of a package instance goes through its __bool__ / __len__ (language fact)
         tt = self.term_type(t)
+        if tt and tt[0] in ('list', 'dict'):
+            return mk_cmp(App('len', (t,)), '!=', Num(Fraction(0)))     # truthiness of a container == non-empty
         if tt and tt[0] == 'inst' and st is not None:
             for special in ('__bool__', '__len__'):
                 ms = self.prog.lookup_method(tt[1], special)
